@@ -18,13 +18,15 @@ import (
 
 type segOracle struct {
 	dT, cx, cy, th1, th2 float64
-	inv                  []float64
+	inv                  []float64 // invL(ts[j]-T) of invSpeedApprox (polished): branch statistics only
+	est                  []float64 // the estimates of the Chebyshev polynomial: what the model receives
 }
 
+// the model computes dT and the polish loop itself: it only receives the centre form and the estimates
 func (o segOracle) tokens() string {
-	s := "s " + hc.Hs(o.dT, o.cx, o.cy, o.th1, o.th2) + " " + fmt.Sprint(len(o.inv))
-	if len(o.inv) > 0 {
-		s += " " + hc.Hs(o.inv...)
+	s := "s " + hc.Hs(o.cx, o.cy, o.th1, o.th2) + " " + fmt.Sprint(len(o.est))
+	if len(o.est) > 0 {
+		s += " " + hc.Hs(o.est...)
 	}
 	return s
 }
@@ -62,17 +64,22 @@ func shadowOracle(rs []rec, tsIn []float64) (os []segOracle, ok bool) {
 		}
 		o := segOracle{}
 		if j < len(ts) {
-			var invL func(float64) float64
+			var invL, estL func(float64) float64
+			var q0, q1, q2, q3 canvas.Point
 			switch r.k {
 			case 'L', 'Z':
 				o.dT = end.Sub(start).Length()
 			case 'Q':
-				invL, o.dT = canvas.VerifC09InvArcLength('Q', start, canvas.Point{X: r.f[0], Y: r.f[1]}, end, canvas.Point{})
+				q0, q1, q2 = start, canvas.Point{X: r.f[0], Y: r.f[1]}, end
 			case 'C':
-				invL, o.dT = canvas.VerifC09InvArcLength('C', start, canvas.Point{X: r.f[0], Y: r.f[1]}, canvas.Point{X: r.f[2], Y: r.f[3]}, end)
+				q0, q1, q2, q3 = start, canvas.Point{X: r.f[0], Y: r.f[1]}, canvas.Point{X: r.f[2], Y: r.f[3]}, end
 			case 'A':
 				o.cx, o.cy, o.th1, o.th2 = canvas.VerifC09EllipseToCenter(start.X, start.Y, r.f[0], r.f[1], r.f[2], r.l, r.s, end.X, end.Y)
-				invL, o.dT = canvas.VerifC09InvArcLength('A', canvas.Point{X: r.f[0], Y: r.f[1]}, canvas.Point{X: o.th1, Y: o.th2}, canvas.Point{}, canvas.Point{})
+				q0, q1 = canvas.Point{X: r.f[0], Y: r.f[1]}, canvas.Point{X: o.th1, Y: o.th2}
+			}
+			if r.k == 'Q' || r.k == 'C' || r.k == 'A' {
+				invL, o.dT = canvas.VerifC09InvArcLength(r.k, q0, q1, q2, q3)
+				estL, _ = canvas.VerifC09InvEstimate(r.k, q0, q1, q2, q3)
 			}
 			if math.IsNaN(o.dT) || math.IsInf(o.dT, 0) {
 				return nil, false
@@ -97,8 +104,16 @@ func shadowOracle(rs []rec, tsIn []float64) (os []segOracle, ok bool) {
 						branch("remainder-skipped(t0==1)")
 					}
 					o.inv = append(o.inv, v)
+					e := estL(ts[j] - T)
+					o.est = append(o.est, e)
+					if e != v {
+						branch("polish-moved-the-estimate-" + string(r.k))
+					} else {
+						branch("polish-kept-the-estimate-" + string(r.k))
+					}
 				} else {
 					o.inv = append(o.inv, 0) // lines: only the count matters
+					o.est = append(o.est, 0)
 				}
 				j++
 			}
